@@ -337,6 +337,7 @@ pub fn parse_line(line: &str) -> LineInfo {
                     sep_made = String::new();
                 } else {
                     result.push((sep.to_string(), token));
+                    sep_made = String::new();
                 }
                 result.push((String::from(""), "|".to_string()));
                 sep = String::new();
@@ -351,6 +352,7 @@ pub fn parse_line(line: &str) -> LineInfo {
                     sep_made = String::new();
                 } else {
                     result.push((sep.to_string(), token));
+                    sep_made = String::new();
                 }
                 result.push((String::from(""), "|".to_string()));
                 sep = String::new();
@@ -368,6 +370,7 @@ pub fn parse_line(line: &str) -> LineInfo {
                     sep_made = String::new();
                 } else {
                     result.push((sep.to_string(), token));
+                    sep_made = String::new();
                 }
                 sep = String::new();
                 sep_second = String::new();
@@ -429,6 +432,7 @@ pub fn parse_line(line: &str) -> LineInfo {
                     sep_made = String::new();
                 } else {
                     result.push((sep.to_string(), token));
+                    sep_made = String::new();
                 }
                 sep = String::new();
                 sep_second = String::new();
